@@ -35,6 +35,7 @@ type PCase struct {
 	Allow  []string `json:"allow"` // raw values of the occurrences of -allow
 	Format string   `json:"format"`
 	Out    string   `json:"out"` // stdout | file | template
+	Pre    string   `json:"pre,omitempty"` // what the output file holds before the run: "" (absent) | longer | shorter
 	Pkg    string   `json:"pkg,omitempty"`
 	Debug  bool     `json:"debug,omitempty"`
 }
@@ -209,6 +210,10 @@ func genPCase(r *rand.Rand, e *env, overlap bool) PCase {
 		c.Debug = true
 	}
 	c.Out = []string{"stdout", "stdout", "file", "template"}[r.Intn(4)]
+	if c.Out != "stdout" {
+		// regenerating a profile: the file already exists, with a longer or a shorter earlier profile
+		c.Pre = []string{"", "longer", "longer", "shorter"}[r.Intn(4)]
+	}
 	return c
 }
 
@@ -370,6 +375,8 @@ func runProfile(e *env, overlap bool, replayCases []string) error {
 			}
 			cases = append(cases, PCase{Arch: "amd64", Format: "config", Out: "stdout"}) // the empty profile
 			cases = append(cases, PCase{Arch: "386", Format: "code", Out: "file", Pkg: "p"})
+			cases = append(cases, PCase{Arch: "amd64", Sites: base, Format: "config", Out: "file", Pre: "longer"})
+			cases = append(cases, PCase{Arch: "amd64", Sites: base, Format: "code", Out: "template", Pre: "longer"})
 		}
 		for i := 0; i < *n; i++ {
 			cases = append(cases, genPCase(rng, e, overlap))
@@ -452,6 +459,22 @@ func runProfile(e *env, overlap bool, replayCases []string) error {
 			os.MkdirAll(filepath.Dir(outFile), 0o777)
 			os.Chmod(filepath.Dir(outFile), 0o777)
 			os.Remove(outFile)
+			switch c.Pre {
+			case "longer":
+				var b strings.Builder
+				b.WriteString("seccomp:\n  default_action: errno\n  syscalls:\n  - names:\n")
+				for _, n := range vd.TableNames("x86_64") {
+					b.WriteString("    - " + n + "\n")
+				}
+				b.WriteString("    action: allow\n")
+				os.WriteFile(outFile, []byte(b.String()), 0o666)
+				os.Chmod(outFile, 0o666)
+				e.tag("out-file:holds-a-longer-earlier-profile")
+			case "shorter":
+				os.WriteFile(outFile, []byte("seccomp:\n  default_action: allow\n"), 0o666)
+				os.Chmod(outFile, 0o666)
+				e.tag("out-file:holds-a-shorter-earlier-profile")
+			}
 		}
 		args := p.commandLine(c, outArg)
 		res := e.runProfiler(p.home, e.noPath, e.dir, args, -1)
